@@ -285,6 +285,36 @@ func C19(ctx *Ctx) {
 			if strings.Join(du, ";") != strings.Join(bu, ";") {
 				msg = fmt.Sprintf("cell %v: label bookkeeping differs: %v without a target, %v with one", k, du, bu)
 			}
+			// ... and none of it may be computed from the number of bytes stored or from
+			// the target: that count stands still without a target, so a value built on it
+			// equals the with-target value in one call and falls behind it over a program
+			nKey := "a." + roles.fieldName(roles.N)
+			cKey := "a." + roles.fieldName(roles.Code)
+			dependsOnStored := func(v absint.Val) string {
+				for _, d := range valDeps(v) {
+					if d.Key == nKey || strings.Contains(d.Key, "("+cKey+")") || strings.HasPrefix(d.Key, "len("+cKey) || strings.HasPrefix(d.Key, "cap("+cKey) {
+						return d.Key
+					}
+				}
+				return ""
+			}
+			for _, f := range append([]int{roles.Address, roles.Tracker, roles.Base}, roles.Dangling...) {
+				if d := dependsOnStored(buf.Final[f]); d != "" {
+					msg = fmt.Sprintf("cell %v: %s is computed from %s, which does not advance without a target", k, roles.fieldName(f), d)
+				}
+			}
+			for _, run := range []*EmitRun{dry, buf} {
+				for _, ev := range run.Events {
+					if ev.Kind != "map-update" {
+						continue
+					}
+					for _, a := range ev.Args[1:] {
+						if d := dependsOnStored(a); d != "" {
+							msg = fmt.Sprintf("cell %v: a label or reference is recorded as %s, computed from %s, which does not advance without a target", k, trunc(absint.ValKey(a)), d)
+						}
+					}
+				}
+			}
 		}
 		if msg != "" {
 			R.Fail("dry-run", name, pos, msg)
